@@ -66,7 +66,40 @@ def int_item(i):
 UTF8_SAMPLES = ["a", "é", "€", "😀", "z", "ß", "語", "𝄞"]
 
 
+DICT_STRINGS = ["data:", "http://", "https://", "\u200d", "\u200c", "\ufeff", "\u0301", " ", "\t", "\x00", "\u202e", "null",
+                "\U0001f468\u200d\U0001f469", "."]
+DICT_INTS = []
+
+
+def set_dictionary(d):
+    """literals found in the source (see gen.py `_t_dictionary`) join the built-in ones"""
+    for x in (d or {}).get("strings", []):
+        if x not in DICT_STRINGS:
+            DICT_STRINGS.append(x)
+    for x in (d or {}).get("ints", []):
+        if x not in DICT_INTS:
+            DICT_INTS.append(x)
+
+
 def rand_utf8(rng, nbytes):
+    if nbytes and rng.random() < 0.3:
+        # a dictionary fragment at the start, at the end, or both — within the requested length
+        frag = rng.choice(DICT_STRINGS).encode()
+        if len(frag) <= nbytes:
+            rest = _plain_utf8(rng, nbytes - len(frag))
+            where = rng.randrange(3)
+            if where == 0:
+                return frag + rest
+            if where == 1:
+                return rest + frag
+            frag2 = rng.choice(DICT_STRINGS).encode()
+            if len(frag) + len(frag2) <= nbytes:
+                return frag + _plain_utf8(rng, nbytes - len(frag) - len(frag2)) + frag2
+            return frag + rest
+    return _plain_utf8(rng, nbytes)
+
+
+def _plain_utf8(rng, nbytes):
     out = b""
     while len(out) < nbytes:
         c = rng.choice(UTF8_SAMPLES).encode()
@@ -137,6 +170,8 @@ class CaseGen:
     def rand_uint(self, w):
         mx = {"u8": 0xFF, "u32": 0xFFFFFFFF, "u64": 0xFFFFFFFFFFFFFFFF}[w]
         c = [x for x in BOUNDARY_INTS if x <= mx] + [mx - 1, mx, self.rng.randint(0, mx)]
+        if DICT_INTS and self.rng.random() < 0.2:
+            c = [x for x in DICT_INTS if x <= mx] or c
         return self.rng.choice(c)
 
     def rand_val(self, t, p_opt=0.5):
@@ -260,8 +295,16 @@ class CaseGen:
                 return ('map', [(('u', 1), ('u', 2)), (('u', 3), ('neg', 24)), (('neg', 0), ('u', 1)),
                                 (('neg', 1), ('bytes', v[1][0][1])), (('neg', 2), ('bytes', v[1][1][1]))])
             if l == "attFmtPref":
-                return ('arr', [('text', t["de"][x[1]][0].encode()) for x in v[1][0][1]]
-                        + ([('text', b"tpm")] if v[1][1][1] else []))
+                known = [t["de"][x[1]][0] for x in v[1][0][1]]
+                unk = []
+                if v[1][1][1]:
+                    # an unknown format: another registered one, or a near miss of a known spelling
+                    base = self.rng.choice([d[0] for d in t["de"]])
+                    unk = [('text', self.rng.choice(["tpm", "android-key", base.upper(), base.capitalize(), base + "2", base[:-1],
+                                                     " " + base, base + "\x00"]).encode())]
+                ents = [('text', k.encode()) for k in known]
+                ents[self.rng.randint(0, len(ents)):0] = unk
+                return ('arr', ents)
             raise ValueError(l)
         if "vec" in t:
             return ('arr', [self.value_item(t["elem"], x) for x in v[1]])
@@ -286,7 +329,7 @@ class CaseGen:
         if "filtered" in r and rng.random() < lossy:
             ents = [self.value_item(r["elem"], ('r', [a, ('s', r["deLit"].encode())])) for a in v[1]]
             for _ in range(rng.randint(1, 4)):
-                alg = rng.choice([-257, -35, -36, -37, -65535, 1, 0, -9])
+                alg = rng.choice([-257, -35, -36, -37, -65535, 1, 0, -9, -19, -6] + [sg * d for d in DICT_INTS for sg in (1, -1) if d < 2 ** 31 and sg * d not in r["known"]])
                 ty = rng.choice(["public-key", "public-key", "webauthn.get", ""])
                 ents.insert(rng.randint(0, len(ents)), ('map', [(('text', b"alg"), int_item(alg)), (('text', b"type"), ('text', ty.encode()))]))
             if rng.random() < 0.5:
